@@ -19,6 +19,8 @@ import (
 	"errors"
 	"fmt"
 	"io"
+	"os"
+	"path/filepath"
 	"strings"
 	"testing/iotest"
 	"time"
@@ -38,6 +40,35 @@ type env struct {
 	Label  string
 	Format string
 	Raw    []byte
+}
+
+// manyRepo lists several signatures (in order) for one artifact.
+type manyRepo struct {
+	desc ocispec.Descriptor
+	sigs [][]byte
+	mt   string
+}
+
+func (o manyRepo) Resolve(ctx context.Context, ref string) (ocispec.Descriptor, error) {
+	return o.desc, nil
+}
+func (o manyRepo) ListSignatures(ctx context.Context, d ocispec.Descriptor, fn func([]ocispec.Descriptor) error) error {
+	var ds []ocispec.Descriptor
+	for _, s := range o.sigs {
+		ds = append(ds, ocispec.Descriptor{MediaType: ocispec.MediaTypeImageManifest, Digest: digest.FromBytes(s), Size: 1})
+	}
+	return fn(ds)
+}
+func (o manyRepo) FetchSignatureBlob(ctx context.Context, d ocispec.Descriptor) ([]byte, ocispec.Descriptor, error) {
+	for _, s := range o.sigs {
+		if digest.FromBytes(s) == d.Digest {
+			return s, ocispec.Descriptor{MediaType: o.mt, Digest: d.Digest, Size: int64(len(s))}, nil
+		}
+	}
+	return nil, ocispec.Descriptor{}, errors.New("unknown")
+}
+func (o manyRepo) PushSignature(ctx context.Context, mt string, blob []byte, s ocispec.Descriptor, a map[string]string) (ocispec.Descriptor, ocispec.Descriptor, error) {
+	return ocispec.Descriptor{}, ocispec.Descriptor{}, errors.New("no")
 }
 
 type oneRepo struct {
@@ -524,6 +555,95 @@ func main() {
 			}
 		}
 	}, r.PanicViolation("harness"))
+	// ---- histories on ONE verifier / ONE options value, and readers that are not at their beginning
+	{
+		ts := lib.NewMemTS().Put("ca:x", good.Root().Cert)
+		sv := trustpolicy.SignatureVerification{VerificationLevel: "strict", Override: map[trustpolicy.ValidationType]trustpolicy.ValidationAction{trustpolicy.TypeRevocation: trustpolicy.ActionSkip}}
+		v, err := verifier.NewVerifierWithOptions(ts, verifier.VerifierOptions{OCITrustPolicy: lib.OCIPolicy(sv, []string{"ca:x"}, []string{"*"}), BlobTrustPolicy: lib.BlobPolicy(sv, []string{"ca:x"}, []string{"*"}),
+			RevocationCodeSigningValidator: lib.OKRev{}, RevocationTimestampingValidator: lib.OKRev{}})
+		if err != nil {
+			panic(err)
+		}
+		header := []byte("ARCHIVE-HEADER-v1\n")
+		whole := append(append([]byte{}, header...), blobA...)
+		for _, f := range lib.Formats {
+			withMeta := fresh[fmt.Sprintf("fresh|%s|notary.x509|good|A|meta=true", f)]
+			noMeta := fresh[fmt.Sprintf("fresh|%s|notary.x509|good|A|meta=false", f)]
+			otherWithMeta := fresh[fmt.Sprintf("fresh|%s|notary.x509|good|B|meta=true", f)]
+			if withMeta == nil || noMeta == nil || otherWithMeta == nil {
+				panic("harness bug: fresh envelope labels")
+			}
+			// (1) the caller's requirement is the caller's: satisfied once, it is still required of the next signature
+			req := map[string]string{"buildId": "101", "team": "x"}
+			opts := notation.VerifierVerifyOptions{ArtifactReference: "r.io/a@" + artA.Desc.Digest.String(), SignatureMediaType: f, UserMetadata: req}
+			_, err1 := v.Verify(ctx, artA.Desc, withMeta, opts)
+			_, err2 := v.Verify(ctx, artA.Desc, noMeta, opts)
+			r.Eval("history|required-metadata-reused|" + f)
+			r.Event("histories-with-a-reused-metadata-requirement")
+			if err1 != nil {
+				r.Violation(map[string]string{"kind": "control-rejected", "api": "verifier.Verify"}, fmt.Sprintf("a good signature carrying the required metadata was rejected: %v", err1), nil)
+			}
+			if err2 == nil {
+				r.Violation(map[string]string{"kind": "accepted-without-required-metadata", "api": "verifier.Verify", "present": "A", "meta": "reused-after-a-satisfying-signature"},
+					fmt.Sprintf("%s: with ONE options value, a signature carrying the required pairs was verified first; then a signature WITHOUT them was accepted (requirement now: %v)", f, req), nil)
+			}
+			if len(req) != 2 {
+				r.Violation(map[string]string{"kind": "caller-requirement-changed", "api": "verifier.Verify"}, fmt.Sprintf("the caller's required-metadata map was changed by verification: %v", req), nil)
+			}
+			// ... the same inside one notation.Verify: an earlier listed signature (of another artifact) carries the pairs, the later one does not
+			req2 := map[string]string{"buildId": "101"}
+			_, _, err3 := notation.Verify(ctx, v, manyRepo{artA.Desc, [][]byte{otherWithMeta, noMeta}, f}, notation.VerifyOptions{ArtifactReference: "r.io/a@" + artA.Desc.Digest.String(), MaxSignatureAttempts: 5, UserMetadata: req2})
+			r.Eval("history|required-metadata-across-listed-signatures|" + f)
+			if err3 == nil {
+				r.Violation(map[string]string{"kind": "accepted-without-required-metadata", "api": "notation.Verify", "present": "A", "meta": "satisfied-by-an-earlier-listed-signature"},
+					f+": notation.Verify succeeded although the only signature of the artifact lacks the required metadata (an earlier listed signature, made for another artifact, carries it)", nil)
+			}
+			// (2) what is verified is what the reader delivers from where it stands: a caller that has consumed a header presents the rest
+			sigWhole := lib.MustCoreSign(lib.SignSpec{Format: f, Payload: lib.Payload(ocispec.Descriptor{MediaType: "application/octet-stream", Digest: digest.FromBytes(whole), Size: int64(len(whole))}), Signer: good})
+			sigRest := lib.MustCoreSign(lib.SignSpec{Format: f, Payload: lib.Payload(ocispec.Descriptor{MediaType: "application/octet-stream", Digest: digest.FromBytes(blobA), Size: int64(len(blobA))}), Signer: good})
+			tmp := filepath.Join(lib.TempDir("c01f"), "archive.bin")
+			os.WriteFile(tmp, whole, 0o644)
+			for _, kind := range []string{"bytes.Reader", "os.File", "strings.Reader"} {
+				mk := func() io.Reader {
+					switch kind {
+					case "os.File":
+						fh, err := os.Open(tmp)
+						if err != nil {
+							panic(err)
+						}
+						fh.Seek(int64(len(header)), io.SeekStart)
+						return fh
+					case "strings.Reader":
+						rd := strings.NewReader(string(whole))
+						rd.Seek(int64(len(header)), io.SeekStart)
+						return rd
+					}
+					rd := bytes.NewReader(whole)
+					rd.Seek(int64(len(header)), io.SeekStart)
+					return rd
+				}
+				vbo := notation.VerifyBlobOptions{BlobVerifierVerifyOptions: notation.BlobVerifierVerifyOptions{SignatureMediaType: f}}
+				rd1, rd2 := mk(), mk()
+				_, _, errWhole := notation.VerifyBlob(ctx, v, rd1, sigWhole, vbo)
+				dRest, _, errRest := notation.VerifyBlob(ctx, v, rd2, sigRest, vbo)
+				for _, x := range []io.Reader{rd1, rd2} {
+					if c, ok := x.(io.Closer); ok {
+						c.Close()
+					}
+				}
+				r.Eval("reader-not-at-its-beginning|" + kind + "|" + f)
+				r.Event("blobs-presented-through-a-reader-that-is-not-at-its-beginning")
+				if errWhole == nil {
+					r.Violation(map[string]string{"kind": "accepted-other-artifact", "api": "notation.VerifyBlob", "present": "rest-of-a-" + kind, "meta": "none"},
+						fmt.Sprintf("%s: the caller presented the %d bytes after a consumed header (%s positioned at offset %d); a signature over the WHOLE %d bytes was accepted", f, len(blobA), kind, len(header), len(whole)), nil)
+				}
+				if errRest != nil || dRest.Digest != digest.FromBytes(blobA) {
+					r.Event("completeness:signature-over-the-presented-rest-rejected")
+				}
+			}
+			os.RemoveAll(filepath.Dir(tmp))
+		}
+	}
 	for _, api := range []string{"verifier.Verify", "notation.Verify", "verifier.VerifyBlob", "notation.VerifyBlob"} {
 		for _, f := range lib.Formats {
 			r.RequireAtLeast("accepted:"+api+":"+f, 10)
